@@ -203,6 +203,27 @@ def run_vector_case(case, ctx):
             return
 
 
+def _history_probe(w, ctx):
+    import copy
+    psi = w.psi
+    v0 = dense.mps_to_vector(psi.A)
+    if np.linalg.norm(v0) < 1e-12:
+        return
+    L, d = psi.nsites, len(psi.qd)
+    for tol in (0.0, 0.1):
+        if tol * L >= 1:
+            continue
+        for mode in ('left', 'right'):
+            judge_compress(ctx, copy.deepcopy(psi), v0, d, L, tol, mode)
+
+
+def replay_case(space, case, seed):
+    if space.name == 'history_states':
+        from props import hist_probe
+        return hist_probe.replay(space, case, seed)
+    return space.run_one(case, seed).fails
+
+
 def sig(case):
     return case[0] + ':' + str(case[1] if case[0] != 'sector' else f'L={len(case[2])-1}')
 
@@ -220,7 +241,9 @@ def spaces(tier, seed):
                       bounds={'L': [1, 2, 3], 'D': [1, 2, 3, 4], 'tols': TOLS}),
                 Space('sector_states_L4', core.chunked(_sector_cases([4], [[0, 1], [1, -1], [0, 0]], [1, 2, 3]), 60),
                       run_case=run_sector_case, sig=sig, bounds={'L': [4], 'D': [1, 2, 3], 'tols': TOLS})]
-    return sect + [
+    from props import hist_probe
+    hist = hist_probe.probe_space('history_states', ['xxz3', 'ising3', 'fh2', 'bh3', 'mol4'], 2 if tier == 'quick' else 3, _history_probe)
+    return sect + [hist] + [
         Space('designed_spectra', core.chunked(_designed_cases(tier), 2), run_case=run_designed_case, sig=sig,
               bounds={'kinds': ['product', 'flat', 'staircase'], 'L': [2, 3, 4], 'd': [2, 3, 4], 'zero_padding': [0, 1],
                       'tols': 'TOLS + {1/4, 1/8, 2^-(d-1), 1/d, 0.2499, 0.2501} within [0,1/L)'}),
